@@ -206,6 +206,28 @@ func (f *feedBuf) drainUntil(markerKey string, markerVal []byte, timeout time.Du
 	}
 }
 
+// drainUntilKey is drainUntil for feeds whose events carry no value: the n-th marker event (by count) ends the batch.
+func (f *feedBuf) drainUntilKey(markerKey string, timeout time.Duration, n int) ([]sgbucket.FeedEvent, error) {
+	deadline := time.Now().Add(timeout)
+	timer := time.AfterFunc(timeout, func() { f.mu.Lock(); f.cond.Broadcast(); f.mu.Unlock() })
+	defer timer.Stop()
+	f.mu.Lock()
+	defer f.mu.Unlock()
+	for {
+		for i, e := range f.evs {
+			if string(e.Key) == markerKey {
+				out := append([]sgbucket.FeedEvent{}, f.evs[:i]...)
+				f.evs = append([]sgbucket.FeedEvent{}, f.evs[i+1:]...)
+				return out, nil
+			}
+		}
+		if time.Now().After(deadline) {
+			return nil, fmt.Errorf("marker event %d not delivered within %s", n, timeout)
+		}
+		f.cond.Wait()
+	}
+}
+
 // dumpFeed runs a Dump feed with backfill from startCas and returns all its events.
 func dumpFeed(c *rosmar.Collection, startCas uint64, keysOnly bool) ([]sgbucket.FeedEvent, error) {
 	var mu sync.Mutex
